@@ -241,6 +241,11 @@ pub fn parenthesise(p: &Program, choose: &mut dyn FnMut() -> bool) -> Program {
     q
 }
 
+/// Wrap sub-expressions of one expression (including itself) in parentheses.
+pub fn wrap_expr(e: &mut Expr, choose: &mut dyn FnMut() -> bool) {
+    wrap(e, choose, false)
+}
+
 fn wrap(e: &mut Expr, choose: &mut dyn FnMut() -> bool, is_body: bool) {
     // children first
     match e {
